@@ -454,6 +454,65 @@ pub fn run(ctx: &mut Ctx) {
         ctx.evaluations += n;
         ctx.bounds.insert("semantic_programs".into(), json!(format!("{} worlds x every identifier occurrence", n)));
     }
+    // the characters of an identifier are a dimension: names that hold every letter, every digit and the underscore,
+    // declared in one letter case and used with one character in the other case (every character in turn), with all of
+    // them in the other case, and with alternating cases — as a variable, a type, an enumeration value, a function
+    // block, an instance, a formal parameter, a structure field, a task and a program instance; library and verdict
+    // must be those of the declared spelling
+    {
+        let alphabet = "abcdefghijklmnopqrstuvwxyz_0123456789";
+        let name = |prefix: &str| format!("{}{}", prefix, alphabet);
+        let template = |v: &str, t: &str, e: &str, fb: &str, inst: &str, par: &str, fld: &str, task: &str, pinst: &str| -> String {
+            format!(
+                "TYPE {t} : ( {e} , other_value ) := {e} ; st_{t} : STRUCT {fld} : INT ; END_STRUCT ; END_TYPE\nFUNCTION_BLOCK {fb}\nVAR_INPUT {par} : INT ; END_VAR\nVAR_OUTPUT q : INT ; END_VAR\nq := {par} ;\nEND_FUNCTION_BLOCK\nFUNCTION_BLOCK Host\nVAR {v} : INT ; lv : {t} := {e} ; s : st_{t} ; {inst} : {fb} ; END_VAR\n{v} := {v} + 1 ;\nlv := {e} ;\n{v} := s . {fld} ;\n{inst} ( {par} := {v} , q => {v} ) ;\nEND_FUNCTION_BLOCK\nPROGRAM Main\nVAR h : Host ; END_VAR\nh ( ) ;\nEND_PROGRAM\nCONFIGURATION cfg\nRESOURCE res ON PLC\nTASK {task} ( INTERVAL := T#100ms , PRIORITY := 1 ) ;\nPROGRAM {pinst} WITH {task} : Main ;\nEND_RESOURCE\nEND_CONFIGURATION\n",
+                v = v, t = t, e = e, fb = fb, inst = inst, par = par, fld = fld, task = task, pinst = pinst
+            )
+        };
+        let roles = ["variable", "type", "enumeration-value", "function-block", "instance", "formal-parameter", "field", "task", "program-instance"];
+        let prefixes = ["v_", "t_", "e_", "fb_", "i_", "p_", "f_", "k_", "g_"];
+        let declared: Vec<String> = prefixes.iter().map(|p| name(p)).collect();
+        let base_text = template(&declared[0], &declared[1], &declared[2], &declared[3], &declared[4], &declared[5], &declared[6], &declared[7], &declared[8]);
+        let (bv, _) = front::check_texts(&[&base_text]);
+        let base_lib = base_of(&base_text);
+        let mut n = 0u64;
+        if bv.short() != "OK" || base_lib.is_none() {
+            ctx.fail("identifier-alphabet/declared-spelling-rejected", &format!("the program with the long names is not accepted as written: {}", bv.short()), json!({"mode":"world-text","text": base_text, "base": base_text}));
+        } else {
+            let base_lib = base_lib.unwrap();
+            // spellings of one name: one character flipped (each in turn), all flipped, alternating
+            let spellings = |d: &str| -> Vec<(String, String)> {
+                let mut out = vec![];
+                let chars: Vec<char> = d.chars().collect();
+                for (i, c) in chars.iter().enumerate() {
+                    if c.is_ascii_alphabetic() {
+                        let mut m = chars.clone();
+                        m[i] = c.to_ascii_uppercase();
+                        out.push((format!("one-character/{}", c), m.iter().collect()));
+                    }
+                }
+                out.push(("all-upper".into(), d.to_ascii_uppercase()));
+                out.push(("alternating".into(), chars.iter().enumerate().map(|(i, c)| if i % 2 == 0 { c.to_ascii_uppercase() } else { *c }).collect()));
+                out
+            };
+            // the uses are respelled, the declaration keeps its spelling: occurrences after the first are the uses
+            for (r, role) in roles.iter().enumerate() {
+                for (sname, sp) in spellings(&declared[r]) {
+                    let first = base_text.find(declared[r].as_str()).unwrap() + declared[r].len();
+                    let text = format!("{}{}", &base_text[..first], base_text[first..].replace(declared[r].as_str(), &sp));
+                    n += 1;
+                    ctx.distinct(&text);
+                    let (v, _) = front::check_texts(&[&text]);
+                    if v.short() != bv.short() {
+                        ctx.fail(&format!("identifier-alphabet/{}/{}#verdict", role, sname.split('/').next().unwrap()), &format!("{} `{}` used as `{}`: verdict {} instead of {}", role, declared[r], sp, v.short(), bv.short()), json!({"mode":"world-text","text": text, "base": base_text}));
+                    } else if let Some(w) = judge(&base_lib, &text) {
+                        ctx.fail(&format!("identifier-alphabet/{}/{}#library", role, sname.split('/').next().unwrap()), &format!("{} `{}` used as `{}`: {}", role, declared[r], sp, w), json!({"mode":"world-text","text": text, "base": base_text}));
+                    }
+                }
+            }
+        }
+        ctx.evaluations += n;
+        ctx.bounds.insert("identifier_alphabet".into(), json!(format!("{} respellings of 9 kinds of name holding every letter, digit and the underscore", n)));
+    }
     // where commentary and string text begin and end decides what is code: exhaustive differential sweep
     crate::lexseg::run_into(ctx, if deep { 7 } else { 6 });
     ctx.states = cases.len() as u64 - skipped;
